@@ -15,6 +15,7 @@ theorem wakeup_seq_matches_source : Generated.AsyncSeq.asyncWakeupSeq = wakeupPr
 theorem io_seq_matches_source : Generated.AsyncSeq.asyncIoSeq = ioProgram := by decide
 theorem spin_seq_matches_source : Generated.AsyncSeq.asyncSpinSeq = spinProgram := by decide
 theorem close_seq_matches_source : Generated.AsyncSeq.asyncCloseSeq = closeProgram := by decide
+theorem fork_seq_matches_source : Generated.AsyncSeq.asyncForkSeq = forkProgram := by decide
 
 /-! ## no lost wake-up -/
 
@@ -88,18 +89,20 @@ theorem no_deadlock_while_owing {s : State} (hr : Reachable s) (h : Nat)
 
 /-- Liveness under weak fairness.  `s`: any reachable state in which an open handle `h` has a send owed and no
 uv_close is in the middle of uv__async_spin; `σ`: any infinite continuation (sender steps, new sends, loop steps,
-close callbacks — no uv_close) in which the loop thread and every sender thread are scheduled again and again.
+close callbacks, EINTR answers — no uv_close, no fork) in which the loop thread and every sender thread are scheduled again and again.
 Then the callback of `h` starts.  (Measure: `mu` = 2·(loop steps until the scan reaches `h`, counting a full
 extra pass when the scan is already past `h`) + 1 while the loop sleeps with the eventfd at 0; sender steps never
 increase it, the helpful thread — the loop, or the sender parked at the eventfd write — strictly decreases it.) -/
 theorem send_then_callback_liveness {s : State} (hr : Reachable s) (h : Nat)
     (hp : (s.hs h).pending ≠ 0) (ho : (s.hs h).closing = false) (hnc : noClosePc s)
-    (σ : Nat → Act) (hσ : ∀ n h', σ n ≠ .close h')
+    (σ : Nat → Act) (hσ : ∀ n h', σ n ≠ .close h') (hσf : ∀ n, σ n ≠ .fork)
     (fairL : ∀ n, ∃ m, m ≥ n ∧ σ m = .loop)
     (fairS : ∀ n t, t < s.snd.length → ∃ m, m ≥ n ∧ σ m = .snd t) :
     ∃ n, ((runN σ n s).hs h).cbs > (s.hs h).cbs := by
   have hσ' : ∀ n, notClose (σ n) := by
-    intro n; have := hσ n; cases hn : σ n <;> simp [notClose]; exact absurd hn (this _)
+    intro n; have := hσ n; have hf := hσf n; cases hn : σ n <;> simp [notClose]
+    · exact absurd hn (this _)
+    · exact absurd hn hf
   exact liveness_aux σ hσ' s h _ fairL fairS (mu s h) 0 (by simp [runN]) (by simpa [runN] using ⟨inv_reachable hr, hp, ho, rfl, hnc⟩)
 
 /-- hypotheses are satisfiable in the interesting case: sender preempted between exchange and eventfd write, loop asleep -/
@@ -117,9 +120,22 @@ no new send can begin on a closing handle — and the helpful thread there is a 
 closeStore/closeSpin → `r.toPc` with the unlinked handle filtered out of `queue`. -/
 def send_then_callback_liveness_full : Prop :=
   ∀ s, Reachable s → ∀ h, (s.hs h).pending ≠ 0 → (s.hs h).closing = false →
-    ∀ σ : Nat → Act, (∀ n h', σ n ≠ .close h') →
+    ∀ σ : Nat → Act, (∀ n h', σ n ≠ .close h') → (∀ n, σ n ≠ .fork) →
       (∀ n, ∃ m, m ≥ n ∧ σ m = .loop) → (∀ n t, t < s.snd.length → ∃ m, m ≥ n ∧ σ m = .snd t) →
       ∃ n, ((runN σ n s).hs h).cbs > (s.hs h).cbs
+
+/-! ### fork
+`Act.fork` continues in the child after uv_loop_fork: `Reachable` is closed under it, so every theorem of this file
+holds for sends made in the child (no lost wake-up on the fresh eventfd, delivery, liveness from any post-fork state).
+Sends that were undelivered at fork time are dropped in the child by uv__async_fork (pending cleared) — by design. -/
+
+/-- non-vacuous: a send undelivered at fork time (pending = 1, eventfd = 1); in the child the flag and the new
+eventfd are clear, the next send takes the slow path again, wakes the loop and gets its callback -/
+example : let s := run (init 1 1) [.begin 0 0, .snd 0, .snd 0, .snd 0, .snd 0, .snd 0, .fork]
+    (s.hs 0).pending = 0 ∧ s.efd = 0 ∧ (s.hs 0).cbs = 0 := by decide
+example : let s := run (init 1 1) [.begin 0 0, .snd 0, .snd 0, .snd 0, .snd 0, .snd 0, .fork,
+                                   .begin 0 0, .snd 0, .snd 0, .snd 0, .snd 0, .snd 0, .loop, .loop, .loop, .loop]
+    (s.hs 0).cbs = 1 ∧ (s.hs 0).seen = 2 ∧ s.lpc = .idle ∧ s.efd = 0 := by decide
 
 /-! ## the callback never runs without a send -/
 
@@ -162,7 +178,7 @@ theorem close_safe_no_wakeup_write {s : State} (hr : Reachable s) (t : Nat) (x :
 theorem close_waits_for_critical_section {s : State} (hr : Reachable s) (h : Nat) (r : LRet)
     (hl : s.lpc = .closeSpin h r) (t : Nat) (x : Sender) (hx : s.snd[t]? = some x) (hh : x.h = h)
     (hc : x.pc = .xchg ∨ x.pc = .write ∨ x.pc = .dec) : step? s .loop = none := by
-  have hb := (inv_reachable hr).B.busyEq h
+  have hb := (inv_reachable hr).B.busyEq h ((inv_reachable hr).L.cloPc h r (Or.inr hl)).2
   have hpos : 0 < s.snd.countP (critB h) :=
     List.countP_pos_iff.mpr ⟨x, List.mem_of_getElem? hx, by rcases hc with hc | hc | hc <;> simp [critB, hh, hc]⟩
   have : (s.hs h).busy ≠ 0 := by omega
